@@ -299,6 +299,34 @@ class Ctx:
             return min(int(m[-1]), n - 1 if n else 0)
         return max(0, min(r.depth - 1, n - 1))
 
+    def binding_selftest(self, module, cfg, trace, mutations, dfs=False, env=None):
+        """Binding demonstration (DESIGN 2.5): each mutation (name, fn(lines)->lines|None) of an ACCEPTED trace
+        must be rejected by the trace spec; otherwise the binding is vacuous -> undecided, never a violation."""
+        lines = [x for x in open(trace).read().splitlines() if x.strip()]
+        res = {}
+        for name, fn in mutations:
+            m = fn(list(lines))
+            if not m or m == lines:
+                res[name] = "not-applicable"
+                continue
+            f = os.path.join(self.work, "selftest-%s.ndjson" % name)
+            open(f, "w").write("\n".join(m) + "\n")
+            e = {"TRACE": f}
+            if env:
+                e.update(env)
+            r = self.tlc(module, cfg, workers=1, timeout=600, env=e, deadlock_off=True, dfs=dfs, count=False, note="binding self-test: " + name)
+            if r.failed and "TRACE-MATCHED" not in r.out:
+                res[name] = "tlc-failed"
+                self.undecided.append("binding self-test %s: TLC failed on the mutated trace" % name)
+            elif self._accepted(r, len(m)):
+                res[name] = "ACCEPTED"
+                self.undecided.append("binding self-test %s: the mutated trace was ACCEPTED by %s (vacuous binding)" % (name, module))
+            else:
+                res[name] = "rejected at line %d" % (self._matched(r, len(m)) + 1)
+            os.remove(f)
+        self.extra.setdefault("binding_selftest", {}).update(res)
+        return res
+
     # ------------------------------------------------------------------ reporting
     def sample(self, s):
         if len(self.samples) < 12:
